@@ -19,6 +19,8 @@ def units():
     for dd in (1, 2, 3):
         us.append(Unit("edge_internal_dd%d" % dd, P + "edge_internal_dd%d" % dd, IE, "delta_depth %d, all parent cells: internal edge = closed border walk S->E->N->W of 4*2^d-4 distinct descendants; sorted variant = its increasing permutation; corners" % dd, tiers=both if dd < 3 else th, timeout=1800 if dd == 3 else 900, mem_gb=8, level="B", bound="delta_depth %d" % dd))
         us.append(Unit("edge_part_dd%d" % dd, P + "edge_part_dd%d" % dd, ["internal_edge_part", "internal_edge_southeast/southwest/northeast/northwest", "append_internal_edge_part"], "delta_depth %d: each side helper returns the 2^d descendants of that side, ascending; append_ variant identical" % dd, timeout=900, level="B", bound="delta_depth %d" % dd))
+    for dd in (3, 4, 5):
+        us.append(Unit("edge_walk_dd%d" % dd, P + "edge_walk_dd%d" % dd, IE, "delta_depth %d, all parent cells: the k-th element of internal_edge is the k-th cell of the border walk S->E->N->W (a descendant of the cell), for every k" % dd, tiers=both, timeout=900, mem_gb=8, level="B", bound="delta_depth %d" % dd))
     for dd in (1, 2):
         us.append(Unit("edge_append_dd%d" % dd, P + "edge_append_dd%d" % dd, ["append_sorted_internal_edge_element", "internal_corner", "append_internal_edge_part", "MainWind::{is_cardinal,to_cardinal,is_ordinal,to_ordinal}"], "delta_depth %d: element appended for a neighbour seen from each of the 8 directions is exactly that corner / side" % dd, timeout=900, level="B", bound="delta_depth %d" % dd))
     for d in (0, 1, 2, 3):
